@@ -185,12 +185,15 @@ structure OptimizeCert (optimize : Seq → Seq) (h : Hir) (termBytes : List Nat)
   noTerm : ∀ L L', (extract h).seq = some L → optimize (some L) = some L' → ∀ t ∈ termBytes, litsNoByte t L' = true
 
 /-- Contract of the regex engine behind `shortest_match` (validated, not proven): the reported
-offset is the end of a match whose start is minimal; no answer means no match. -/
+offset is the end of a match, and no match of the haystack ends strictly before that match starts;
+no answer means no match.  (Deliberately weaker than "a match with minimal start": regex-automata 0.4.7
+does not always return the leftmost match — `Sherlock|b[a-z]SherlockSherlock` on `baSherlockSherlock`
+yields (2,10) — but it never jumps over a match, which is all promise (c) needs.) -/
 /- `hnorm` in `C11` below: regex-syntax's smart constructors add no matches (external; the harness
 checks the stronger `noByte` certificate on their actual output, see `noByte_checker_sound`). -/
 
 structure EngineSpec (lk : LookFn) (h : Hir) (shortest : Bytes → Option Nat) : Prop where
-  some_ : ∀ hay i, shortest hay = some i → ∃ s, Matches lk h hay s i ∧ ∀ s' e', Matches lk h hay s' e' → s ≤ s'
+  some_ : ∀ hay i, shortest hay = some i → ∃ s, Matches lk h hay s i ∧ ∀ s' e', Matches lk h hay s' e' → s ≤ e'
   none_ : ∀ hay, shortest hay = none → ∀ s e, ¬ Matches lk h hay s e
 
 /-- **C11**: for every configuration, every pattern list and every HIR the translator may return, if
